@@ -218,14 +218,14 @@ type hdelivery struct {
 	// after the delivery has settled the victim's store is closed, reopened and loaded from its
 	// cache directory before the state is observed (what the victim persisted is what counts)
 	reloadAfter bool
-	route    string         // sync | pubsub | exchange | ancestor
-	victim   int            // replica receiving
-	from     int            // hostile replica (sender on the direct channel)
-	heads    []*entry.Entry // announced heads as presented (Hash = claimed address)
-	headTrue []int          // hash numbers of the true addresses of the announced contents
-	target   int            // hash number (true address) of the hostile entry
-	tcid     cid.Cid        // true address of the hostile entry
-	key, val string         // how the target's value would show in queries
+	route       string         // sync | pubsub | exchange | ancestor
+	victim      int            // replica receiving
+	from        int            // hostile replica (sender on the direct channel)
+	heads       []*entry.Entry // announced heads as presented (Hash = claimed address)
+	headTrue    []int          // hash numbers of the true addresses of the announced contents
+	target      int            // hash number (true address) of the hostile entry
+	tcid        cid.Cid        // true address of the hostile entry
+	key, val    string         // how the target's value would show in queries
 	// judge visibility by membership in Values() (for values not attributable to the target)
 	visByListing bool
 	// route snapshot: how the hostile entry is put into the snapshot file
